@@ -41,6 +41,8 @@ type F0 = Frame<&'static Cx>;
 
 trait GuardObj: Send {
     fn start_it(&mut self);
+    /// Complete the span inside its frame: by drop, `complete()`, or `complete_with(..)`.
+    fn finish(self: Box<Self>, how: u64, m: &'static M18);
 }
 
 impl<'a, T: emit::Clock + Send, P: emit::Props + Send, C: emit::span::completion::Completion + Send> GuardObj
@@ -48,6 +50,33 @@ impl<'a, T: emit::Clock + Send, P: emit::Props + Send, C: emit::span::completion
 {
     fn start_it(&mut self) {
         self.start()
+    }
+    fn finish(self: Box<Self>, how: u64, m: &'static M18) {
+        match how % 3 {
+            0 => drop(self),
+            1 => {
+                (*self).complete();
+            }
+            _ => {
+                (*self).complete_with(emit::span::completion::default(m.rt.emitter(), m.rt.ctxt()));
+            }
+        }
+    }
+}
+
+/// The error of the Result-returning fixtures; it carries the interpreter's state out.
+#[derive(Debug)]
+struct LeaveErr(Leave);
+impl std::fmt::Display for LeaveErr {
+    fn fmt(&self, f: &mut std::fmt::Formatter) -> std::fmt::Result {
+        f.write_str("scripted error result")
+    }
+}
+impl std::error::Error for LeaveErr {}
+
+fn either(r: Result<Leave, LeaveErr>) -> Leave {
+    match r {
+        Ok(l) | Err(LeaveErr(l)) => l,
     }
 }
 
@@ -83,6 +112,44 @@ fn form_sync_guard(m: &'static M18) -> Leave {
     reply_ok();
     let l = run_loop(m);
     span.complete();
+    l
+}
+
+// completion through `complete_with` (the expansion of ok_lvl / err_lvl, or by hand)
+#[emit::span(rt: m.rt, ok_lvl: emit::Level::Debug, "sync fn span with Ok result")]
+fn form_sync_result_ok(m: &'static M18) -> Result<Leave, LeaveErr> {
+    reply_ok();
+    Ok(run_loop(m))
+}
+
+#[emit::span(rt: m.rt, err_lvl: emit::Level::Warn, "sync fn span with Err result")]
+fn form_sync_result_err(m: &'static M18) -> Result<Leave, LeaveErr> {
+    reply_ok();
+    Err(LeaveErr(run_loop(m)))
+}
+
+#[emit::span(rt: m.rt, guard: span, "sync fn span with guard and complete_with")]
+fn form_sync_guard_with(m: &'static M18) -> Leave {
+    reply_ok();
+    let l = run_loop(m);
+    span.complete_with(emit::span::completion::default(m.rt.emitter(), m.rt.ctxt()));
+    l
+}
+
+#[emit::span(rt: m.rt, ok_lvl: emit::Level::Info, "async fn span with Ok result")]
+async fn form_async_result_ok(m: &'static M18) -> Result<Leave, LeaveErr> {
+    Ok(ScriptFuture { m }.await)
+}
+
+#[emit::span(rt: m.rt, err_lvl: emit::Level::Error, "async fn span with Err result")]
+async fn form_async_result_err(m: &'static M18) -> Result<Leave, LeaveErr> {
+    Err(LeaveErr(ScriptFuture { m }.await))
+}
+
+#[emit::span(rt: m.rt, guard: span, "async fn span with guard and complete_with")]
+async fn form_async_guard_with(m: &'static M18) -> Leave {
+    let l = ScriptFuture { m }.await;
+    span.complete_with(emit::span::completion::default(m.rt.emitter(), m.rt.ctxt()));
     l
 }
 
@@ -204,11 +271,14 @@ impl Machine for M18 {
             "begin" => {
                 self.set_decision(step);
                 let i = step["i"].as_u64().unwrap();
-                let leave = match (salt + i) % 4 {
+                let leave = match (salt + i) % 7 {
                     0 => form_sync_fn(self),
                     1 => form_new_span_call(self),
                     2 => form_sync_guard(self),
-                    _ => form_manual_enter(self),
+                    3 => form_manual_enter(self),
+                    4 => either(form_sync_result_ok(self)),
+                    5 => either(form_sync_result_err(self)),
+                    _ => form_sync_guard_with(self),
                 };
                 self.after_nested(leave)
             }
@@ -266,18 +336,21 @@ impl Machine for M18 {
                         self.after_nested(l)
                     }
                     TFrame::Span(mut frame, mut guard) => {
+                        let how = salt / 2 + f;
                         let leave = if (salt + f) % 2 == 0 {
                             frame.call(move || {
                                 guard.start_it();
                                 reply_ok();
-                                run_loop(self)
+                                let l = run_loop(self);
+                                guard.finish(how, self);        // inside the frame
+                                l
                             })
                         } else {
                             let _g = frame.enter();
                             guard.start_it();
                             reply_ok();
                             let l = run_loop(self);
-                            drop(guard);
+                            guard.finish(how, self);
                             l
                         };
                         self.after_nested(leave)
@@ -294,7 +367,7 @@ impl Machine for M18 {
                     TFrame::Span(frame, mut guard) => Box::pin(frame.in_future(async move {
                         guard.start_it();
                         let l = ScriptFuture { m }.await;
-                        drop(guard);
+                        guard.finish(salt / 2 + f, m);
                         l
                     })),
                 };
@@ -304,7 +377,12 @@ impl Machine for M18 {
             }
             "lazy" => {
                 let k = step["k"].as_u64().unwrap();
-                let task: Task = Box::pin(form_async_fn(self));
+                let task: Task = match (salt + k) % 4 {
+                    0 => Box::pin(form_async_fn(self)),
+                    1 => Box::pin(async move { either(form_async_result_ok(self).await) }),
+                    2 => Box::pin(async move { either(form_async_result_err(self).await) }),
+                    _ => Box::pin(form_async_guard_with(self)),
+                };
                 self.tasks.lock().unwrap().insert(k, task);
                 reply_ok();
                 None
